@@ -204,6 +204,12 @@ Proof.
   apply node_queried_tinv. exact H.
 Qed.
 
+Lemma tinv_inval : forall bs, tinv bs -> tinv (inval_tb bs).
+Proof.
+  intros bs T. unfold inval_tb. destruct chain_inval; [|exact T].
+  apply tinv_map; [intros; split; reflexivity|intros; apply ok_set_cache; assumption|assumption].
+Qed.
+
 Lemma step_sinv : forall s o, sinv s -> sinv (fst (step sha s o)).
 Proof.
   intros s o T. unfold sinv in *. unfold step. destruct (err s); [exact T|].
@@ -220,20 +226,26 @@ Proof.
       apply tinv_map_bucket; [rng|intros; apply ok_touch; apply ok_set_good; assumption|assumption].
     + destruct (negb (want_node s id)); [exact T|].
       pose proof (add_node_tinv (own s) (now s) (mkNode id ip port 0 false 0) (tab s) T LK) as H.
-      destruct (add_node_to_bucket _ _ _ _) as [t [|]|t|]; simpl; try assumption; try contradiction.
+      destruct (add_node_to_bucket _ _ _ _) as [t0 [|]|t0|]; simpl; try assumption; try contradiction.
+      assert (H' : tinv (tb (if nodes_count t0 =? nodes_count (tab s) then inval_tab t0 else t0)))
+        by (destruct (_ =? _); [apply tinv_inval|]; assumption).
+      generalize dependent (if nodes_count t0 =? nodes_count (tab s) then inval_tab t0 else t0). intros t H'.
       destruct (lookup id (tb t)) as [[k n]|]; simpl; [|assumption].
       apply tinv_map_bucket; [rng|intros; apply ok_touch; apply ok_set_good; assumption|assumption].
   - destruct (id =? own s); [exact T|]. unfold node_inactive.
     destruct (lookup id (tb (tab s))) as [[k n]|]; [|exact T]. destruct (negb (nip n =? ip)); [exact T|].
-    assert (T1 : tinv (map_bucket k (b_inactive n) (tb (tab s)))).
+    assert (T0 : tinv (map_bucket k (b_inactive n) (tb (tab s)))).
     { apply tinv_map_bucket; [| |assumption].
       - rng.
       - intros; apply ok_inactive; assumption. }
+    assert (T1 : tinv (if (ninact n + 1 =? max_failed) && negb (is_bad n) then inval_tb (map_bucket k (b_inactive n) (tb (tab s)))
+                       else map_bucket k (b_inactive n) (tb (tab s))))
+      by (destruct (_ && _); [apply tinv_inval|]; assumption).
     destruct (lookup id _) as [[k' n1]|]; [|exact T].
     destruct (is_bad n1 && _); simpl; [|assumption].
-    apply tinv_map_bucket; [intros; split; reflexivity|intros; apply ok_remove; assumption|assumption].
+    apply tinv_inval. apply tinv_map_bucket; [intros; split; reflexivity|intros; apply ok_remove; assumption|assumption].
   - unfold node_invalid. destruct (lookup id (tb (tab s))) as [[k n]|]; [|exact T]. simpl.
-    apply tinv_map_bucket; [intros; split; reflexivity|intros; apply ok_remove; assumption|assumption].
+    apply tinv_inval. apply tinv_map_bucket; [intros; split; reflexivity|intros; apply ok_remove; assumption|assumption].
   - apply tinv_map; [intros; split; reflexivity|intros; apply ok_housekeeping; assumption|assumption].
   - destruct (token_valid sha s tok ip); [destruct ((port <? 1) || (65535 <? port))|]; exact T.
   - destruct (get_tracker ih (trackers s)) as [[|p l]|]; try exact T;
